@@ -14,7 +14,7 @@ func init() {
 	register("C06",
 		"Structural necessary conditions of C06 decided from /repo's SSA: (algebra) the Filter methods of the union/intersection/inverse/all/none helpers and Include/Exclude.Combine followed by Filter are interpreted over all assignments of the opaque atoms `f matches` and must equal a∨b, a∧b, ¬a, true, false, f | g∨f, ¬f | g∧¬f; Inverted swaps the two combiners — from these identities the last-matching-rule fold follows by induction on the option list; (fold) at every site that extends a filter the first Combine argument is the current value of the very field the result is stored to; (default) Finish turns a nil top-level filter into all-references iff its parameter is true, and the only caller passes len(flags.Args())==0; (flags) the include/exclude/…-regexp and the five --X/--no-X pairs are registered with the stated polarity, pattern and regexp bit; (prefix) the prefix filter's truth table is HasPrefix ∧ (ends-in-'/' ∨ equal length ∨ next byte '/') with the index evaluated only when in bounds; (anchor) a user pattern is wrapped in a group before being anchored; (flex) /…/, @…, else-prefix dispatch with in-bounds slicing. Not decided: regexp matching itself, pflag's in-order Set calls.",
 		[]string{"spf13/pflag calls Value.Set in command-line order", "regexp semantics", "induction on the option list (on paper, DESIGN.md C06)"},
-		ruleC06Algebra, ruleC06Fold, ruleC06Default, ruleC06Flags, ruleC06Prefix, ruleC06Anchor, ruleC06Flex, ruleC06RefGroup)
+		ruleC06Algebra, ruleC06Fold, ruleC06Default, ruleC06Flags, ruleC06Prefix, ruleC06Anchor, ruleC06Flex, ruleC06RefGroup, ruleC06ImmutableOptions)
 }
 
 // combineCalls lists every call of a Combiner's Combine method.
@@ -275,12 +275,198 @@ func (c *Ctx) flagRegs() []*flagReg {
 					}
 				}
 			}
+			// a registration inside a loop over a constant table: one entry per table row
+			if r.Name == "" {
+				if nameArg := flagNameArg(call, m); nameArg != nil {
+					if tbl, n := c.findConstTable(nameArg); tbl != nil {
+						for i := 0; i < n; i++ {
+							name, ok := c.evalWithRow(nameArg, tbl, i)
+							if !ok {
+								continue
+							}
+							ri := &flagReg{Name: name, Call: call, ValueType: r.ValueType, ValueArg: r.ValueArg, Fields: map[string]string{}}
+							for k, val := range r.Fields {
+								ri.Fields[k] = val
+							}
+							if al, ok := v.(*ssa.Alloc); ok {
+								for _, ref := range *al.Referrers() {
+									if fa, ok := ref.(*ssa.FieldAddr); ok {
+										for _, st := range storesTo(fa) {
+											if _, isConst := st.Val.(*ssa.Const); isConst {
+												continue
+											}
+											if ev, ok := c.evalWithRowRendered(st.Val, tbl, i); ok {
+												ri.Fields[fieldOfAddr(fa).Var.Name()] = ev
+											}
+										}
+									}
+								}
+							}
+							out = append(out, ri)
+						}
+						return
+					}
+				}
+			}
 			out = append(out, r)
 		})
 	}
-	sort.Slice(out, func(i, j int) bool { return out[i].Call.Pos() < out[j].Call.Pos() })
+	sort.SliceStable(out, func(i, j int) bool { return out[i].Call.Pos() < out[j].Call.Pos() })
 	c.memo["flagregs"] = out
 	return out
+}
+
+func flagNameArg(call *ssa.Call, method string) ssa.Value {
+	args := call.Call.Args
+	if len(args) > 2 {
+		return args[2]
+	}
+	return nil
+}
+
+// constTable: rows of a local composite literal `[]struct{…}{ {…}, … }`.
+type constTable struct {
+	alloc *ssa.Alloc
+	rows  map[int64]map[int]ssa.Value // row -> field index -> stored value
+}
+
+// findConstTable finds the table whose current row value v depends on.
+func (c *Ctx) findConstTable(v ssa.Value) (*constTable, int) {
+	var found *constTable
+	n := 0
+	seen := map[ssa.Value]bool{}
+	var walk func(x ssa.Value, depth int)
+	walk = func(x ssa.Value, depth int) {
+		if x == nil || seen[x] || depth > 6 || found != nil {
+			return
+		}
+		seen[x] = true
+		switch y := x.(type) {
+		case *ssa.BinOp:
+			walk(y.X, depth+1)
+			walk(y.Y, depth+1)
+		case *ssa.Field:
+			walk(y.X, depth+1)
+		case *ssa.FieldAddr:
+			walk(y.X, depth+1)
+		case *ssa.UnOp:
+			walk(y.X, depth+1)
+		case *ssa.Alloc:
+			for _, st := range c.cellStores(y) {
+				walk(st.Val, depth+1)
+			}
+		case *ssa.IndexAddr:
+			if _, isConst := y.Index.(*ssa.Const); isConst {
+				return
+			}
+			sl, ok := c.resolve(y.X).(*ssa.Slice)
+			if !ok {
+				return
+			}
+			al, ok := sl.X.(*ssa.Alloc)
+			if !ok {
+				return
+			}
+			ln, ok := staticLenOf(al.Type())
+			if !ok {
+				return
+			}
+			t := &constTable{alloc: al, rows: map[int64]map[int]ssa.Value{}}
+			for _, r := range *al.Referrers() {
+				ia, ok := r.(*ssa.IndexAddr)
+				if !ok {
+					continue
+				}
+				row, ok := constInt(ia.Index)
+				if !ok {
+					continue
+				}
+				for _, rr := range *ia.Referrers() {
+					if fa, ok := rr.(*ssa.FieldAddr); ok {
+						for _, st := range storesTo(fa) {
+							if t.rows[row] == nil {
+								t.rows[row] = map[int]ssa.Value{}
+							}
+							t.rows[row][fa.Field] = st.Val
+						}
+					}
+				}
+			}
+			found, n = t, int(ln)
+		}
+	}
+	walk(v, 0)
+	return found, n
+}
+
+// evalWithRow evaluates a string expression with the loop element bound to row i.
+func (c *Ctx) evalWithRow(v ssa.Value, t *constTable, i int) (string, bool) {
+	switch x := v.(type) {
+	case *ssa.Const:
+		return constStr(x)
+	case *ssa.BinOp:
+		if x.Op == token.ADD {
+			a, ok1 := c.evalWithRow(x.X, t, i)
+			b, ok2 := c.evalWithRow(x.Y, t, i)
+			return a + b, ok1 && ok2
+		}
+	case *ssa.Field:
+		if val, ok := t.rows[int64(i)][x.Field]; ok && c.dependsOnTable(x.X, t) {
+			return constStr(val)
+		}
+	case *ssa.UnOp:
+		if fa, ok := x.X.(*ssa.FieldAddr); ok && c.dependsOnTable(fa.X, t) {
+			if val, ok := t.rows[int64(i)][fa.Field]; ok {
+				return constStr(val)
+			}
+		}
+	}
+	return "", false
+}
+
+func (c *Ctx) evalWithRowRendered(v ssa.Value, t *constTable, i int) (string, bool) {
+	var fieldIdx = -1
+	switch x := v.(type) {
+	case *ssa.Field:
+		if c.dependsOnTable(x.X, t) {
+			fieldIdx = x.Field
+		}
+	case *ssa.UnOp:
+		if fa, ok := x.X.(*ssa.FieldAddr); ok && c.dependsOnTable(fa.X, t) {
+			fieldIdx = fa.Field
+		}
+	}
+	if fieldIdx < 0 {
+		return "", false
+	}
+	val, ok := t.rows[int64(i)][fieldIdx]
+	if !ok {
+		// zero value of the field
+		return "", false
+	}
+	return c.renderVal(val), true
+}
+
+// dependsOnTable: v is (a copy of) the current element of the table.
+func (c *Ctx) dependsOnTable(v ssa.Value, t *constTable) bool {
+	for i := 0; i < 6; i++ {
+		switch x := v.(type) {
+		case *ssa.UnOp:
+			v = x.X
+		case *ssa.Alloc:
+			st := c.cellStores(x)
+			if len(st) != 1 {
+				return false
+			}
+			v = st[0].Val
+		case *ssa.IndexAddr:
+			sl, ok := c.resolve(x.X).(*ssa.Slice)
+			return ok && sl.X == ssa.Value(t.alloc)
+		default:
+			return false
+		}
+	}
+	return false
 }
 
 func (c *Ctx) renderVal(v ssa.Value) string {
@@ -548,32 +734,99 @@ func ruleC06Flex(c *Ctx) {
 			return false
 		})
 	}
+	// "s starts/ends with the byte ch", in any of its spellings
 	strFact := func(b *ssa.BasicBlock, fn, lit string) bool {
+		ch := int64(lit[0])
 		return guardedBy(b, func(cond ssa.Value, truth bool) bool {
-			call, ok := cond.(*ssa.Call)
-			if !ok || !truth || calleeQ(&call.Call) != fn || call.Call.Args[0] != ssa.Value(s) {
+			if call, ok := cond.(*ssa.Call); ok && truth && calleeQ(&call.Call) == fn && call.Call.Args[0] == ssa.Value(s) {
+				l, ok := constStr(call.Call.Args[1])
+				return ok && l == lit
+			}
+			// s[0] == ch  /  s[len(s)-1] == ch
+			cmp, ok := isCmp(cond, token.EQL)
+			if !ok || !truth {
 				return false
 			}
-			l, ok := constStr(call.Call.Args[1])
-			return ok && l == lit
+			n, ok := constInt(cmp.Y)
+			if !ok || n != ch {
+				return false
+			}
+			var base, index ssa.Value
+			switch idx := cmp.X.(type) {
+			case *ssa.Lookup:
+				base, index = idx.X, idx.Index
+			case *ssa.Index:
+				base, index = idx.X, idx.Index
+			default:
+				return false
+			}
+			if base != ssa.Value(s) {
+				return false
+			}
+			if fn == "strings.HasPrefix" {
+				i, ok := constInt(index)
+				return ok && i == 0
+			}
+			// len(s)-1
+			bo, ok := index.(*ssa.BinOp)
+			if !ok || bo.Op != token.SUB {
+				return false
+			}
+			k, ok := constInt(bo.Y)
+			l, isLen := bo.X.(*ssa.Call)
+			return ok && k == 1 && isLen && isBuiltin(&l.Call, "len") && l.Call.Args[0] == ssa.Value(s)
 		})
+	}
+	// "v is s without its first byte": s[1:] or strings.TrimPrefix(s, "<ch>")
+	isRest := func(v ssa.Value, ch string) bool {
+		v = c.resolve(v)
+		for i := 0; i < 3; i++ {
+			switch x := v.(type) {
+			case *ssa.ChangeType:
+				v = x.X
+			case *ssa.Convert:
+				v = x.X
+			}
+		}
+		if sl, ok := v.(*ssa.Slice); ok && sl.X == ssa.Value(s) && sl.High == nil && sl.Low != nil {
+			lo, ok := constInt(sl.Low)
+			return ok && lo == 1
+		}
+		if call, ok := v.(*ssa.Call); ok && calleeQ(&call.Call) == "strings.TrimPrefix" && call.Call.Args[0] == ssa.Value(s) {
+			l, ok := constStr(call.Call.Args[1])
+			return ok && l == ch
+		}
+		return false
+	}
+	// "v is s without its first and last byte"
+	isInner := func(v ssa.Value) bool {
+		v = c.resolve(v)
+		if sl, ok := v.(*ssa.Slice); ok && sl.X == ssa.Value(s) && sl.Low != nil && sl.High != nil {
+			lo, _ := constInt(sl.Low)
+			if hi, ok := sl.High.(*ssa.BinOp); ok && hi.Op == token.SUB && lo == 1 {
+				if n, ok := constInt(hi.Y); ok && n == 1 {
+					if l, ok := hi.X.(*ssa.Call); ok && isBuiltin(&l.Call, "len") && l.Call.Args[0] == ssa.Value(s) {
+						return true
+					}
+				}
+			}
+		}
+		// strings.TrimSuffix(strings.TrimPrefix(s, "/"), "/") and the reverse nesting
+		if outer, ok := v.(*ssa.Call); ok && (calleeQ(&outer.Call) == "strings.TrimSuffix" || calleeQ(&outer.Call) == "strings.TrimPrefix") {
+			if inner, ok := c.resolve(outer.Call.Args[0]).(*ssa.Call); ok && (calleeQ(&inner.Call) == "strings.TrimSuffix" || calleeQ(&inner.Call) == "strings.TrimPrefix") && calleeQ(&inner.Call) != calleeQ(&outer.Call) {
+				a, ok1 := constStr(outer.Call.Args[1])
+				b, ok2 := constStr(inner.Call.Args[1])
+				return ok1 && ok2 && a == "/" && b == "/" && inner.Call.Args[0] == ssa.Value(s)
+			}
+		}
+		return false
 	}
 	// regexp branch
 	for _, call := range callsTo(flex, regexpFilter) {
 		b := call.Block()
 		okGuard := strFact(b, "strings.HasPrefix", "/") && strFact(b, "strings.HasSuffix", "/") && lenFact(b, 2)
-		sl, isSlice := c.resolve(call.Call.Args[0]).(*ssa.Slice)
-		okSlice := false
-		if isSlice && sl.X == ssa.Value(s) && sl.Low != nil && sl.High != nil {
-			lo, _ := constInt(sl.Low)
-			if hi, ok := sl.High.(*ssa.BinOp); ok && hi.Op == token.SUB && lo == 1 {
-				if n, ok := constInt(hi.Y); ok && n == 1 {
-					if l, ok := hi.X.(*ssa.Call); ok && isBuiltin(&l.Call, "len") && l.Call.Args[0] == ssa.Value(s) {
-						okSlice = true
-					}
-				}
-			}
-		}
+		_ = isRest
+		okSlice := isInner(call.Call.Args[0])
 		switch {
 		case !okGuard:
 			c.violate("C06.flex", "regexp:guard", call.Pos(), name, "the /REGEXP/ branch is not guarded by HasPrefix(s,\"/\") ∧ HasSuffix(s,\"/\") ∧ len(s) >= 2 (a lone \"/\" would slice out of range or be taken as a regexp)")
@@ -601,45 +854,15 @@ func ruleC06Flex(c *Ctx) {
 		if _, isMap := lk.X.Type().Underlying().(*types.Map); !isMap {
 			return
 		}
-		atGuard := guardedBy(lk.Block(), func(cond ssa.Value, truth bool) bool {
-			cmp, ok := isCmp(cond, token.EQL)
-			if !ok || !truth {
-				return false
-			}
-			n, ok := constInt(cmp.Y)
-			if !ok || n != '@' {
-				return false
-			}
-			var base, index ssa.Value
-			switch idx := cmp.X.(type) {
-			case *ssa.Lookup:
-				base, index = idx.X, idx.Index
-			case *ssa.Index:
-				base, index = idx.X, idx.Index
-			default:
-				return false
-			}
-			if base != ssa.Value(s) {
-				return false
-			}
-			i, ok := constInt(index)
-			return ok && i == 0
+		atGuard := strFact(lk.Block(), "strings.HasPrefix", "@")
+		// an index s[0] needs len(s) >= 1; HasPrefix(s,"@") implies it
+		hasPrefixForm := guardedBy(lk.Block(), func(cond ssa.Value, truth bool) bool {
+			call, ok := cond.(*ssa.Call)
+			return ok && truth && calleeQ(&call.Call) == "strings.HasPrefix" && call.Call.Args[0] == ssa.Value(s)
 		})
-		if atGuard && lenFact(lk.Block(), 1) {
+		if atGuard && (hasPrefixForm || lenFact(lk.Block(), 1)) {
 			found = true
-			key := c.resolve(lk.Index)
-			if cv, ok := key.(*ssa.ChangeType); ok {
-				key = cv.X
-			}
-			if cv, ok := key.(*ssa.Convert); ok {
-				key = cv.X
-			}
-			sl, ok := key.(*ssa.Slice)
-			lo := int64(-1)
-			if ok && sl.Low != nil {
-				lo, _ = constInt(sl.Low)
-			}
-			if !ok || sl.X != ssa.Value(s) || lo != 1 || sl.High != nil {
+			if !isRest(lk.Index, "@") {
 				c.violate("C06.flex", "refgroup:key", lk.Pos(), name, "the refgroup looked up for @NAME is not s[1:]")
 			} else {
 				c.hold("C06.flex", "refgroup", lk.Pos(), "groups[s[1:]] under s[0]=='@' ∧ len(s)>=1")
@@ -680,5 +903,49 @@ func ruleC06Flex(c *Ctx) {
 	})
 	if !found {
 		c.violate("C06.flex", "refgroup", flex.Pos(), name, "no @REFGROUP branch (lookup of s[1:] guarded by s[0]=='@' with len(s) >= 1)")
+	}
+}
+
+
+// ruleC06ImmutableOptions: a selection option may occur several times; each
+// occurrence must be judged by the polarity and pattern it was registered
+// with, so the option value must not rewrite its own configuration while
+// handling an occurrence (a `=false` on one occurrence must not stick).
+func ruleC06ImmutableOptions(c *Ctx) {
+	types_ := map[string]bool{}
+	for _, r := range c.flagRegs() {
+		if pkgOf(r.Call.Parent()) == modPath+"/internal/refopts" && r.ValueType != "" {
+			types_[r.ValueType] = true
+		}
+	}
+	n := 0
+	for _, f := range c.ModFns {
+		if f.Signature.Recv() == nil || pkgOf(f) != modPath+"/internal/refopts" {
+			continue
+		}
+		rn := namedOf(f.Signature.Recv().Type())
+		if rn == nil || !types_[typeName(rn)] {
+			continue
+		}
+		n++
+		bad := false
+		allInstrs(f, func(in ssa.Instruction) {
+			st, ok := in.(*ssa.Store)
+			if !ok {
+				return
+			}
+			fa, ok := st.Addr.(*ssa.FieldAddr)
+			if !ok || c.resolve(fa.X) != ssa.Value(f.Params[0]) {
+				return
+			}
+			bad = true
+			c.violate("C06.fold", "immutable-option:"+fnName(f)+":"+fieldOfAddr(fa).Var.Name(), st.Pos(), fnName(f), "handling one occurrence of the option rewrites the option's own "+fieldOfAddr(fa).Var.Name()+": a later occurrence of the same option is then judged with the altered polarity/pattern instead of its own")
+		})
+		if !bad {
+			c.hold("C06.fold", "immutable-option:"+fnName(f), f.Pos(), "the option value's own configuration is not modified")
+		}
+	}
+	if n == 0 {
+		c.violate("C06.fold", "immutable-option", token.NoPos, "", "no methods of the registered selection-option values found")
 	}
 }
